@@ -165,6 +165,51 @@ def api_flag(K=1):
     return Harness(body, args, describe=lambda a: dict(a), bounds={'K': K})
 
 
+def in_place(K=1):
+    """a property added in place to one column / table of one database is stored on that object only: other columns, other
+    tables, databases parsed later (with or without the option) and API-built objects show none"""
+    args = [('first_on', 'bool'), ('later_on', 'bool'), ('api_first', 'bool')] + hole_args('v', K, VAL)
+    DOC = "Table t {\n  a int\n  b int [unique]\n}\nTable u {\n  c int\n}\n"
+
+    def body(a):
+        from pydbml import Database
+        from pydbml.classes import Table, Column
+        v = text_of(a, 'v', K)
+        try:
+            if a['api_first']:
+                db1 = Database(allow_properties=a['first_on'])
+                db1.add(Table('t', columns=[Column('a', 'int'), Column('b', 'int', unique=True)]))
+                db1.add(Table('u', columns=[Column('c', 'int')]))
+            else:
+                db1 = docs.parse(DOC, allow_properties=a['first_on'])
+        except Exception:
+            return 'valid document rejected'
+        db1.tables[0].columns[0].properties['k'] = v          # the idiom of docs/properties.md
+        db1.tables[0].properties['tk'] = v
+        reached()
+        if db1.tables[0].columns[0].properties != {'k': v} or db1.tables[0].properties != {'tk': v}:
+            return 'a property added in place is not stored on its object'
+        for o in (db1.tables[0].columns[1], db1.tables[1].columns[0], db1.tables[1]):
+            if len(o.properties) != 0:
+                return 'a property added to one object shows up on another object of the same database'
+        try:
+            db2 = docs.parse(DOC, allow_properties=a['later_on'])
+        except Exception:
+            return 'valid document rejected'
+        for t in db2.tables:
+            if len(t.properties) != 0 or any(len(c.properties) != 0 for c in t.columns):
+                return 'a document without properties parsed later carries properties'
+        if 'k: ' in db2.dbml:
+            return 'a document without properties renders properties'
+        c3 = Column('z', 'int')
+        t3 = Table('w', columns=[c3])
+        if len(c3.properties) != 0 or len(t3.properties) != 0:
+            return 'a new object built through the API carries properties'
+        return ''
+
+    return Harness(body, args, describe=lambda a: dict(a), bounds={'K': K})
+
+
 def instances(tier):
     quick = tier == 'quick'
     T1 = 280 if quick else 3000
@@ -179,5 +224,6 @@ def instances(tier):
     out.append({'name': 'document/one/crit/K2', 'factory': 'document', 'params': {'layout': 'one', 'K': 2, 'fix': dict(fixes[1], tp=1, cp=1), 'crit': True},
                 'timeout': T1, 'native_limit': 80})
     out.append({'name': 'file_routes', 'factory': 'file_routes', 'params': {'K': 1}, 'timeout': T1, 'native_limit': 60})
+    out.append({'name': 'in_place', 'factory': 'in_place', 'params': {'K': 1 if quick else 2}, 'timeout': T1, 'native_limit': 60})
     out.append({'name': 'api_flag', 'factory': 'api_flag', 'params': {'K': 1 if quick else 2}, 'timeout': T1, 'native_limit': 60})
     return out
